@@ -130,6 +130,20 @@ var c13Scales = []c13Xf{
 	{"scale 2^55+1", (1 << 55) + 1, 0, 0}, // products of coordinate differences are not representable in float64
 }
 
+// c13Centred: scalings followed by the translation that puts the middle of the base lattice (cx,cy) at the
+// origin, so coordinates of both signs occur and a polygon can fill the box [-m,m]^2 (area 4m^2 with every
+// coordinate below m: the case in which 'all coordinates are small' does not bound the area).
+func c13Centred(cx, cy int64) []c13Xf {
+	var out []c13Xf
+	for _, k := range []struct {
+		n string
+		k int64
+	}{{"2^27", 1 << 27}, {"214748364 (10k < 2^31)", 214748364}, {"2^31+7", 1<<31 + 7}, {"2^40", 1 << 40}, {"2^55+1", 1<<55 + 1}} {
+		out = append(out, c13Xf{"scale " + k.n + " centred on the origin", k.k, -cx * k.k, -cy * k.k})
+	}
+	return out
+}
+
 // base witnesses: integer lattice points over the input bounds, > 2 units from every base edge
 type c13Wit struct {
 	p      Pt
@@ -156,19 +170,20 @@ func c13Witnesses(S, C Paths, pitch int64) []c13Wit {
 	return out
 }
 
-func c13BoolScope(tier string) *drv.Scope {
+func c13BoolScope(tier string, e enum.Embed) *drv.Scope {
 	nS := enum.PathCount(3, 3)
-	stride := uint64(81)
+	// strides coprime to 9: a multiple of 9 would pin the leading vertices of every selected clip to lattice point 0
+	stride := uint64(37)
 	if tier == "thorough" {
-		stride = 9
+		stride = 7
 	}
 	nC := (nS + stride - 1) / stride
-	xfs := append(append([]c13Xf{}, c13Translations...), c13Scales...)
+	cen := e.F(1, 1)
+	xfs := append(append(append([]c13Xf{}, c13Translations...), c13Scales...), c13Centred(cen.X, cen.Y)...)
 	var sb, cb Path
-	e := enum.Esh
-	return &drv.Scope{Name: fmt.Sprintf("magnitude/boolean/P(3,3) x every %d-th of P(3,3)/E_sh x 4 translations + 8 scalings", stride), Level: 2, Size: nS * nC,
+	return &drv.Scope{Name: fmt.Sprintf("magnitude/boolean/P(3,3) x every %d-th of P(3,3)/%s x 4 translations + 8 scalings + 5 centred scalings", stride, e.Name), Level: 2, Size: nS * nC,
 		Show: func(idx uint64) any {
-			return map[string]any{"subject": pathLit(enum.UnrankPath(idx%nS, 3, 3, e, nil)), "clip": pathLit(enum.UnrankPath(idx/nS*stride, 3, 3, e, nil)), "transformations": "translations by (2^31,0), (0,-2^40), (2^52-64,2^52-64), (-2^52,2^51+1); scalings by 2^10, 2^20+1, 2^28, 2^31, 2^40, 3*2^50, 2^56"}
+			return map[string]any{"subject": pathLit(enum.UnrankPath(idx%nS, 3, 3, e, nil)), "clip": pathLit(enum.UnrankPath(idx/nS*stride, 3, 3, e, nil)), "transformations": "translations by (2^31,0), (0,-2^40), (2^52-64,2^52-64), (-2^52,2^51+1); scalings by 2^10, 2^20+1, 2^28, 2^31, 2^40, 3*2^50, 2^56, 2^55+1; scalings by 2^27, 214748364, 2^31+7, 2^40, 2^55+1 centred on the origin"}
 		},
 		Run: func(c *drv.Ctx, idx uint64) {
 			sb = enum.UnrankPath(idx%nS, 3, 3, e, sb)
@@ -220,11 +235,11 @@ func c13BoolScope(tier string) *drv.Scope {
 
 func bigArea2(p Path) *big.Int { return oracle.Area2(p) }
 
-func c13UnaryScope(n int) *drv.Scope {
-	xfs := append(append([]c13Xf{}, c13Translations...), c13Scales...)
-	e := enum.Esh
+func c13UnaryScope(n int, e enum.Embed) *drv.Scope {
+	cen := e.F(1, 1)
+	xfs := append(append(append([]c13Xf{}, c13Translations...), c13Scales...), c13Centred(cen.X, cen.Y)...)
 	var buf Path
-	return &drv.Scope{Name: fmt.Sprintf("magnitude/Area64+PointInPolygon+SimplifyPath64/P(3,%d)/E_sh", n), Level: 1, Size: enum.PathCount(3, n),
+	return &drv.Scope{Name: fmt.Sprintf("magnitude/Area64+PointInPolygon+SimplifyPath64/P(3,%d)/%s", n, e.Name), Level: 1, Size: enum.PathCount(3, n),
 		Show: func(idx uint64) any { return pathLit(enum.UnrankPath(idx, 3, n, e, nil)) },
 		Run: func(c *drv.Ctx, idx uint64) {
 			buf = enum.UnrankPath(idx, 3, n, e, buf)
@@ -397,14 +412,15 @@ func init() {
 	drv.Register(&drv.Check{
 		ID:    "C13",
 		Title: "Results do not depend on coordinate magnitude within the advertised range",
-		Rule: "a finite grid of magnitudes, bracketing every power of two at which an int64 product or a float64 mantissa in the anchored routines can first overflow: translations by (2^31,0), (0,-2^40), (2^52-64,2^52-64), (-2^52,2^51+1) and scalings by 2^10, 2^20+1, 2^28, 2^31, 2^40, 3*2^50, 2^56, 2^55+1, applied to every base input of: P(3,3) x every k-th of P(3,3) (sheared embedding; 4 rotating (clip type, fill rule) pairs per input) for BooleanOpPaths64; P(3,3..5) for Area64, PointInPolygon (all lattice points), SimplifyPath64; P(R5,3[,4]) for RectClipPaths64 (rectangle transformed too); simple polygons of P(4,3) for InflatePaths64 (translations only). " +
+		Rule: "a finite grid of magnitudes, bracketing every power of two at which an int64 product or a float64 mantissa in the anchored routines can first overflow: translations by (2^31,0), (0,-2^40), (2^52-64,2^52-64), (-2^52,2^51+1) and scalings by 2^10, 2^20+1, 2^28, 2^31, 2^40, 3*2^50, 2^56, 2^55+1, and scalings by 2^27, 214748364, 2^31+7, 2^40, 2^55+1 followed by the translation that centres the base lattice on the origin (coordinates of both signs; a polygon filling the box [-m,m]^2), applied to every base input of: P(3,3) x every k-th of P(3,3), k coprime to 9 (sheared and axis-aligned embeddings; 4 rotating (clip type, fill rule) pairs per input) for BooleanOpPaths64; P(3,3..5) for Area64, PointInPolygon (all lattice points), SimplifyPath64; P(R5,3[,4]) for RectClipPaths64 (rectangle transformed too); simple polygons of P(4,3) for InflatePaths64 (translations only). " +
 			"Oracle: exact 128-bit winding numbers of the transformed solution at the images of base lattice points that are > 2 units from every base edge, compared with the exact reference answer of the base input (not with the library's own small-coordinate result); Area64 against exact k^2 * area; PointInPolygon against the exact base answer; SimplifyPath64: same retained vertices. non-trivial = base input with a non-empty expected region / non-zero area / crossing path",
 		Assumptions:      []string{"finite magnitude grid, not all magnitudes", "base inputs of <= 5 vertices"},
 		RequiredCounters: []string{"boolean_inputs_with_nonempty_expected_region", "unary_paths_with_area", "rect_paths_crossing", "inflate_polygons"},
 		Scopes: func(tier string) []*drv.Scope {
-			out := []*drv.Scope{c13UnaryScope(3), c13UnaryScope(4), c13RectScope(3), c13InflateScope(), c13BoolScope(tier)}
+			out := []*drv.Scope{c13UnaryScope(3, enum.Esh), c13UnaryScope(4, enum.Esh), c13UnaryScope(3, enum.Eax), c13UnaryScope(4, enum.Eax), c13RectScope(3), c13InflateScope(),
+				c13BoolScope(tier, enum.Esh), c13BoolScope(tier, enum.Eax)}
 			if tier == "thorough" {
-				out = append(out, c13UnaryScope(5), c13RectScope(4))
+				out = append(out, c13UnaryScope(5, enum.Esh), c13UnaryScope(5, enum.Eax), c13RectScope(4))
 			}
 			return out
 		},
